@@ -115,12 +115,17 @@ def run_sequential(ctx: Ctx, rec: Recorder) -> None:
     keys = ["k%d" % i for i in range(nkeys)]
     ops: list[tuple[str, typing.Any]] = [("get", k) for k in keys] + [("set", k) for k in keys] + [("del", k) for k in keys] + [("clear", None), ("len", None)]
     idx = 0
-    for maxsize in (0, 1, 2, 3):
-        for L in range(1, depth + 1):
+    cut = False
+    # shorter histories first for every maxsize, so that a budget cut only ever drops part of the deepest level
+    for L in range(1, depth + 1):
+        for maxsize in (0, 1, 2, 3):
             for seq in itertools.product(ops, repeat=L):
                 idx += 1
                 if not ctx.mine(idx):
                     continue
+                if idx % 8192 < ctx.nshards and ctx.out_of_time(0.4):
+                    cut = True
+                    break
                 disposed: list[typing.Any] = []
                 lockv: list[typing.Any] = []
                 c = make_container(maxsize, disposed, lockv)
@@ -148,6 +153,12 @@ def run_sequential(ctx: Ctx, rec: Recorder) -> None:
                         rec.fail({"mode": "sequential", "maxsize": maxsize, "ops": [list(x) for x in seq]}, "dispose-under-lock", {"values": lockv[:3]}, "dispose callback entered while the container's lock was held")
                     elif real_apply(c, "keys") != m.apply("keys") or len(c) != len(m.items) or len(c) > max(maxsize, 0):
                         rec.fail({"mode": "sequential", "maxsize": maxsize, "ops": [list(x) for x in seq]}, "final-state-mismatch", {"keys": real_apply(c, "keys"), "model": m.apply("keys")}, "final keys differ from the model")
+            if cut:
+                break
+        if cut:
+            rec.count("sequential_cut_short_by_budget")
+            depth = L - 1
+            break
     rec.exhaustive_parts.append(f"all operation sequences of length<={depth} over get/set/del x {nkeys} keys + clear + len, maxsize in 0..3, vs the sequential LRU model with dispose log")
 
 
@@ -597,12 +608,17 @@ def run_shard(ctx: Ctx, rec: Recorder) -> None:
 
         n = 0
         for decisions, o in sched.explore(run_one, bound=bound, max_runs=per):
+            if ctx.out_of_time(0.6):
+                rec.count("container_schedules_cut_short_by_budget")
+                break
             rec.case(["cont", cfg, decisions], nontrivial=len(decisions) > 0)
             judge_container(rec, cfg, ["replay", decisions], o)
             n += 1
             if n == 3:
                 rec.sample({"mode": "container", "cfg": cfg, "decisions": decisions, "history": [(h["thread"], h["op"], h["k"], h["v"], h["result"]) for h in o["history"]], "disposed": o["disposed"]})
         for j in range(ctx.pick(40, 1500)):
+            if ctx.out_of_time(0.65):
+                break
             seed = ctx.rng.randrange(1 << 30)
             o = run_container_schedule(cfg, ("random", random.Random(seed), 0.3))
             rec.case(["cont-rand", cfg, seed])
@@ -619,6 +635,9 @@ def run_shard(ctx: Ctx, rec: Recorder) -> None:
             return o["point_info"], o
 
         for decisions, o in sched.explore(run_one_m, bound=ctx.pick(1, 2), max_runs=perm):
+            if ctx.out_of_time(0.9):
+                rec.count("manager_schedules_cut_short_by_budget")
+                break
             rec.case(["mgr", cfg, decisions], nontrivial=len(decisions) > 0)
             judge_manager(rec, cfg, ["replay", decisions], o)
         for j in range(ctx.pick(40, 1200)):
